@@ -480,6 +480,16 @@ func vLoopyGen(r *vRand, tier string, idx int) ([]int64, [][]int64) {
 		}
 		ops = append(ops, []int64{14, 1, 5, vLoopyHLen(5), 0}) // established id: not executed
 		return []int64{1}, ops
+	case 9:
+		// SETTINGS raise while the connection window is exactly 0: stream 1 waits on its stream window,
+		// stream 3 (with extra stream credit) drains the connection window, then the initial window is raised
+		return []int64{1}, [][]int64{{3, 1}, {3, 3}, {2, 10}, {6, 1, 5, 70000, 0}, {10}, {1, 3, 1 << 20}, {6, 3, 5, 200000, 0},
+			{10}, {10}, {10}, {10}, {10}, {2, 100}, {10}, {1, 0, 1000}, {10}, {10}, {10}}
+	case 11:
+		// negative stream quota (SETTINGS lowered below the bytes already sent) and then an EMPTY data item
+		// with endStream (CloseSend): a zero-length DATA frame with END_STREAM, no panic
+		return []int64{0}, [][]int64{{4, 1, 3, vLoopyHLen(3), 0}, {6, 1, 5, 100, 0}, {10}, {10}, {2, 50}, {6, 1, 0, 0, 1}, {10}, {10},
+			{4, 3, 3, vLoopyHLen(3), 0}, {6, 3, 5, 20000, 0}, {10}, {10}, {10}, {2, 0}, {6, 3, 0, 0, 0}, {10}, {6, 3, 0, 0, 1}, {10}, {10}}
 	case 10:
 		// on the client earlyAbortStream is an error: loopy exits
 		return []int64{0}, [][]int64{{4, 1, 3, vLoopyHLen(3), 0}, {14, 1001, 40000, vLoopyHLen(40000), 0}, {10}}
@@ -545,6 +555,31 @@ func vLoopyGen(r *vRand, tier string, idx int) ([]int64, [][]int64) {
 	}
 	for i := 0; i < nstreams; i++ {
 		open()
+	}
+	switch special := r.Intn(8); {
+	case special == 0 && profile != 2:
+		// drain the connection window to exactly 0 while a stream waits on its stream window, then raise
+		// SETTINGS_INITIAL_WINDOW_SIZE (the wake-up must not depend on connection quota)
+		if len(ids) < 2 {
+			open()
+		}
+		a, b := ids[0], ids[1]
+		w := int64(1 + r.Intn(200))
+		ops = append(ops, []int64{2, w}, []int64{6, a, 5, 70000, 0}, []int64{10}, []int64{1, b, 1 << 20}, []int64{6, b, 5, 200000, 0})
+		for n := 0; n < 6; n++ {
+			ops = append(ops, []int64{10})
+		}
+		ops = append(ops, []int64{2, w + 1 + int64(r.Intn(100000))}, []int64{10}, []int64{1, 0, r.PickI64(1, 100, 70000)}, []int64{10}, []int64{10})
+	case special == 1:
+		// negative stream quota, then an empty data item
+		id := ids[0]
+		d := r.PickI64(1, 100, 20000)
+		es := sd == 0 && r.Bool()
+		if es {
+			ended[id] = true
+		}
+		ops = append(ops, []int64{6, id, 5, d, 0}, []int64{10}, []int64{10}, []int64{10}, []int64{2, int64(r.Intn(int(5 + d)))},
+			[]int64{6, id, 0, 0, vB(es)}, []int64{10}, []int64{10})
 	}
 	nops := 40 + r.Intn(50)
 	if tier != "quick" {
